@@ -1199,7 +1199,7 @@ private:
          , m_col(lp.colVector(_j))
       {
          assert(m_row[m_j] != 0.0);
-         simplifier.addObjoffset(m_obj * m_const / m_row[m_j]);
+         simplifier.addObjoffset(lp.obj(_j) * m_const / m_row[m_j]);
       }
       /// copy constructor
       MultiAggregationPS(const MultiAggregationPS& old)
